@@ -75,9 +75,16 @@ class BlockingExecutor(Executor):
                 parent_value, self.context_value, info
             )
 
-        return self.complete_value(
-            field_definition.type, nodes, path, info, resolved
-        )
+        try:
+            return self.complete_value(
+                field_definition.type, nodes, path, info, resolved
+            )
+        except ResolverError as err:
+            # Same as `Executor.resolve_field`: a ResolverError raised while
+            # completing the value (`resolve_type`, custom scalars, lazy
+            # iterables) is a field error.
+            self.add_error(err, path, node)
+            return None
 
     def complete_list_value(
         self,
